@@ -19,6 +19,7 @@ CHILD = [
     'f"t"', 'f"{a}"', 'f"{a!r:>{b}}"', 'f"{a=}"', 'f"{a}{{}}{b:x}"', 'f"{f\'{a}\'}"', '-1', '- -1', '-1.5', '2 ** -1', '(-1) ** 2',
     '18446744073709551615', '1e999', '1e-07', '"a\'b"', '"\\n\\\\"', '"""a\nb"""', 'b"\\x00\\xff"', '"\\x00"', '"é\U0001F600"', 'a.b.c(d)[e]',
     'a if b"y" else c', 'a or b"y"', 'not b"y"', 'a in b"y"', 'a is not b"y"', 'a or f"{b}"', 'not f"{a}"', 'a if f"{b}" else c', 'lambda: b"y"', 'a and "s"',
+    '{a: b} if c else d', '{a} if b else c', '{a: b}[c]', '{a: b} or c', '{a for a in b} if c else d', '{a: b}.c', '{a: b} < c',
     '[a for b in c for d in e if f if g]', 'a if b else c if d else e', '(a if b else c) if d else e', 'lambda: (yield)', '(a, *b)',
     '1 .real', '1.0.real', 'a[b](c).d', '(a := b, c)', 'f(a := b)', '{*a}', '{**a}', 'a <= b', 'a > b', 'a >= b', 'a != b', 'a is b',
 ]
@@ -31,6 +32,7 @@ INTERESTING = [CHILD.index(t) for t in [
     '(a, *b)', 'a < b <= c', '2 ** -1', 'b"\\x00\\xff"']]
 # position 31 alternates (by the statement / slot index) between the escaped bytes literal and keyword-followed-by-bytes
 INTERESTING_ALT = CHILD.index('a if b"y" else c')
+INTERESTING_ALT2 = CHILD.index('{a: b} if c else d')
 
 # --- expression slots --------------------------------------------------------------------------------------------
 SLOT = [
